@@ -62,6 +62,9 @@ def conformance(tier):
     lines = ['prog ' + s for s in raw] + ['prog ' + pshell.quote(s) for s in raw] + \
             ['V=' + pshell.quote(s) + ' prog' for s in raw] + \
             ['prog ' + rninja.shell_escape(s) for s in raw]
+    ws = list(cf.strings('V=:~a', 4, 1))
+    lines += ['prog ' + w for w in ws] + [w + ' prog' for w in ws] + \
+             ['export ' + w + ' && prog' for w in ws]
     a, u, bad = cf.check_rsh(lines)
     return [('rsh vs /bin/sh (incl. ninja $in/$out escaping)', a, u, bad)]
 
